@@ -8,15 +8,19 @@
     * `_q` is read BEFORE the socket; a frame that fails the filter is put back at the end of
       `_q` (`Cfg.requeue = true`, as shipped).  `requeue = false` is the intended variant
       (DESIGN §2.4): an unmatched frame is dropped.
-    * a frame whose byte 5 is the Send Message command is unwrapped first
-      (`decode_bridged_message`); an empty result is the bare acknowledgement and `continue`s
-      without touching `received_retry`.
+    * `Cfg.cmdOnly = true` (as shipped): a frame whose byte 5 is the Send Message command is unwrapped
+      first (`decode_bridged_message`), whatever request is outstanding and whatever else the frame
+      says; `cmdOnly = false` (repaired): only a frame that passes `rx_filter` for the Send Message
+      request of THIS transaction is unwrapped, every layer verified.  An empty result is the bare
+      acknowledgement and `continue`s without touching `received_retry`.
+    * the socket's receive queue outlives a request (`IfState.sock`): what one request leaves unread is
+      the first thing the next one reads — unless (`Cfg.drain`, repaired) it is discarded first.
     * `received_retry` counts filtered frames, `retry` counts socket time-outs; both loops run
       while `counter <= max_retries`.
     * exceptions other than socket.timeout leave the function (IndexError for frames shorter
       than 6 bytes, TypeError for an empty payload, DecodingError, CompletionCodeError of an
       envelope).
-  Loop bounds, the sequence-number rule, the Send Message command id and the slice of the
+  Loop bounds, the sequence-number rule, the Send Message ids and the slice of the
   returned data come from Gen/Loops04.lean (regenerated from the source on every run).
   The control flow itself is tied too: `Shape.rmcp` at the end of this file is the Python function,
   statement by statement, each annotated with the definition here that mirrors it; the translator
@@ -87,20 +91,29 @@ def rxFilter (checkSeq : Bool) (h : Hdr) (f : Frame) : Bool :=
   (f.getD 4 0 &&& 3) == h.rsLun &&
   (!checkSeq || (f.getD 4 0 >>> 2) == h.seq)
 
-/-- `decode_bridged_message`: entered with `6 ≤ f.length` and `f[5] = Send Message`.
-`while f[5] == 0x34: decode SendMessageRsp from f[6:]; check cc; f = f[7:-1]; if len f < 6: break`.
+/-- `is_send_message_response(rx_data, verify=True)` of the repaired source (netFn App + 1, command
+34h, both checksums) / the byte-5 test of the source as shipped (`cmdOnly`). -/
+def isSendMsgRsp (cmdOnly : Bool) (f : Frame) : Bool :=
+  if cmdOnly then f.getD 5 0 == Gen.Loops04.cmdSendMessage
+  else
+    (f.getD 1 0 >>> 2) == Gen.Loops04.netfnApp + 1 && f.getD 5 0 == Gen.Loops04.cmdSendMessage &&
+    pyChecksum (f.take 3) == 0 && pyChecksum (f.drop 3) == 0
+
+/-- `decode_bridged_message(rx_data, verify=True)` (as shipped: without `verify`); entered with
+`6 ≤ f.length`.
+`while is_send_message_response(f): decode SendMessageRsp from f[6:]; check cc; f = f[7:-1]; if len f < 6: break`.
 Fuel = length of the frame (each round removes 8 bytes). -/
-def peelN : Nat → Frame → Outcome Frame
+def peelN (cmdOnly : Bool) : Nat → Frame → Outcome Frame
   | 0, f => .ok f
   | n + 1, f =>
-    if f.getD 5 0 = Gen.Loops04.cmdSendMessage then
+    if isSendMsgRsp cmdOnly f then
       match f.drop 6 with
       | [] => .decodingError                      -- no completion code byte
       | cc :: _ =>
         if cc ≠ 0 then .ccError cc
         else
           let g := (f.drop 7).dropLast
-          if g.length < 6 then .ok g else peelN n g
+          if g.length < 6 then .ok g else peelN cmdOnly n g
     else .ok f
 
 /-- What the body of the receive loop makes of one frame (from `_q` or from the socket). -/
@@ -111,17 +124,44 @@ inductive Cls where
   | hit (g : Frame)              -- filter said yes
   deriving Repr, DecidableEq
 
-def classify (checkSeq : Bool) (h : Hdr) (f : Frame) : Cls :=
-  if f.length ≤ Gen.Loops04.rmcpBridgeIdx then .err (.pyError "IndexError")
-  else if f.getD Gen.Loops04.rmcpBridgeIdx 0 = Gen.Loops04.cmdSendMessage then
-    match peelN f.length f with
-    | .ok g =>
-      if g.isEmpty then .ack
-      else if g.length < 6 then .err (.pyError "IndexError")
-      else if rxFilter checkSeq h g then .hit g else .noise g
-    | e => .err e
-  else if f.length < 6 then .err (.pyError "IndexError")
+/-- `received = rx_filter(header, rx_data, …)` on a frame that was not unwrapped -/
+def plain (checkSeq : Bool) (h : Hdr) (f : Frame) : Cls :=
+  if f.length < 6 then .err (.pyError "IndexError")
   else if rxFilter checkSeq h f then .hit f else .noise f
+
+/-- `rx_data = decode_bridged_message(…); if not rx_data: continue`, then the filter -/
+def afterPeel (checkSeq : Bool) (h : Hdr) : Outcome Frame → Cls
+  | .ok g =>
+    if g.isEmpty then .ack
+    else if g.length < 6 then .err (.pyError "IndexError")
+    else if rxFilter checkSeq h g then .hit g else .noise g
+  | e => .err e
+
+/-- `bridge_header` of the repaired source: the Send Message request this transaction has
+outstanding (netFn App, LUN 0, command 34h, the request's sequence number); the addresses stay unset
+and are not compared. -/
+def bridgeHdr (seq : Nat) : Hdr :=
+  { rsSa := 0, netfn := Gen.Loops04.netfnApp, rsLun := 0, rqSa := 0, rqLun := 0, seq := seq,
+    cmd := Gen.Loops04.cmdSendMessage }
+
+/-- One received frame in the loop body.
+
+As shipped (`cmdOnly`): `if array('B', rx_data)[5] == CMDID_SEND_MESSAGE: rx_data = decode_bridged_message(rx_data)`
+whatever request is outstanding.  Repaired: `if bridge_header is not None and rx_filter(bridge_header, rx_data,
+rq_seq=…): rx_data = decode_bridged_message(rx_data, verify=True)`; every other frame goes to the reply filter
+as it is (`bridge = none`: the request is not bridged). -/
+def classify (cmdOnly : Bool) (checkSeq : Bool) (bridge : Option Hdr) (h : Hdr) (f : Frame) : Cls :=
+  if cmdOnly then
+    if f.length ≤ 5 then .err (.pyError "IndexError")
+    else if f.getD 5 0 = Gen.Loops04.cmdSendMessage then afterPeel checkSeq h (peelN true f.length f)
+    else plain checkSeq h f
+  else
+    match bridge with
+    | none => plain checkSeq h f
+    | some bh =>
+      if f.length < 6 then .err (.pyError "IndexError")
+      else if rxFilter checkSeq bh f then afterPeel checkSeq h (peelN false f.length f)
+      else plain checkSeq h f
 
 /-- What `recvfrom` delivers. -/
 inductive RxEvent where
@@ -131,14 +171,32 @@ inductive RxEvent where
   | timeout                  -- socket.timeout
   deriving Repr, DecidableEq
 
+/-- `maxRetries` and the two quirks are the interface's configuration; the three Booleans select
+the state of the SOURCE (DESIGN §2.4) — the defaults are the repaired source, every theorem says
+which it is about:
+
+* `requeue`  — before fixes/C04-1.diff an unmatched frame was put back into `_q` (read before the socket);
+* `cmdOnly`  — before fixes/C09-1.diff every frame whose sixth byte is 34h was unwrapped as a Send Message
+               response, unverified, whether or not the request was bridged;
+* `drain`    — since fixes/C04-3.diff the datagrams an earlier request left in the socket are discarded
+               before a request is sent. -/
 structure Cfg where
   maxRetries : Nat
   ignoreRqSeq : Bool := false
   ignoreSduLength : Bool := false
-  /-- as shipped: an unmatched frame is put back into `_q` -/
-  requeue : Bool := true
+  requeue : Bool := false
+  cmdOnly : Bool := false
+  drain : Bool := true
   slaveAddr : Nat := 0x81
   deriving Repr, DecidableEq
+
+/-- the source as pinned (after fixes/C04-1.diff, before C09-1 / C04-3) -/
+def Cfg.shipped (c : Cfg) : Cfg := { c with requeue := false, cmdOnly := true, drain := false }
+
+/-- all repairs in place -/
+def Cfg.Repaired (c : Cfg) : Prop := c.requeue = false ∧ c.cmdOnly = false ∧ c.drain = true
+
+instance (c : Cfg) : Decidable c.Repaired := by unfold Cfg.Repaired; infer_instance
 
 def Cfg.checkSeq (c : Cfg) : Bool := !c.ignoreRqSeq
 
@@ -164,25 +222,25 @@ inductive Next where
   | abort (e : Outcome Frame) (q : List Frame) (evs : List RxEvent)
 
 /-- `_q` is empty: read the socket. -/
-def nextSock (cfg : Cfg) (h : Hdr) : List RxEvent → Next
+def nextSock (cfg : Cfg) (bridge : Option Hdr) (h : Hdr) : List RxEvent → Next
   | [] => .timeout []                      -- nothing more arrives
   | ev :: rest =>
     match recvIpmi cfg ev with
     | .timeout => .timeout rest
     | .err e => .abort e [] rest
     | .got f =>
-      match classify cfg.checkSeq h f with
-      | .ack => nextSock cfg h rest
+      match classify cfg.cmdOnly cfg.checkSeq bridge h f with
+      | .ack => nextSock cfg bridge h rest
       | .err e => .abort e [] rest
       | .noise g => .counted g false [] rest
       | .hit g => .counted g true [] rest
 
 /-- `if not self._q.empty(): rx_data = self._q.get() else: rx_data = self._receive_ipmi_msg()`. -/
-def nextQ (cfg : Cfg) (h : Hdr) : List Frame → List RxEvent → Next
-  | [], evs => nextSock cfg h evs
+def nextQ (cfg : Cfg) (bridge : Option Hdr) (h : Hdr) : List Frame → List RxEvent → Next
+  | [], evs => nextSock cfg bridge h evs
   | f :: q, evs =>
-    match classify cfg.checkSeq h f with
-    | .ack => nextQ cfg h q evs
+    match classify cfg.cmdOnly cfg.checkSeq bridge h f with
+    | .ack => nextQ cfg bridge h q evs
     | .err e => .abort e q evs
     | .noise g => .counted g false q evs
     | .hit g => .counted g true q evs
@@ -194,12 +252,12 @@ inductive Inner where
   | abort (e : Outcome Frame) (q : List Frame) (evs : List RxEvent)
 
 /-- `while received is False and received_retry <= self.max_retries`; `b` = iterations left. -/
-def inner (cfg : Cfg) (h : Hdr) : Nat → List Frame → List RxEvent → Inner
+def inner (cfg : Cfg) (bridge : Option Hdr) (h : Hdr) : Nat → List Frame → List RxEvent → Inner
   | 0, q, evs => .exhausted q evs
   | b + 1, q, evs =>
-    match nextQ cfg h q evs with
+    match nextQ cfg bridge h q evs with
     | .counted g true q' evs' => .done g q' evs'
-    | .counted g false q' evs' => inner cfg h b (if cfg.requeue then q' ++ [g] else q') evs'
+    | .counted g false q' evs' => inner cfg bridge h b (if cfg.requeue then q' ++ [g] else q') evs'
     | .timeout evs' => .timeout evs'
     | .abort e q' evs' => .abort e q' evs'
 
@@ -218,14 +276,14 @@ def outerBudget (cfg : Cfg) : Nat := cfg.maxRetries + Gen.Loops04.rmcpOuterExtra
 
 /-- `while retry <= self.max_retries: try: send; … except socket.timeout: retry += 1`;
 `r` = iterations left, `n` = datagrams sent so far. -/
-def outer (cfg : Cfg) (h : Hdr) : Nat → List Frame → List RxEvent → Nat → Result
+def outer (cfg : Cfg) (bridge : Option Hdr) (h : Hdr) : Nat → List Frame → List RxEvent → Nat → Result
   | 0, q, evs, n => ⟨.retryError, q, evs, n⟩
   | r + 1, q, evs, n =>
-    match inner cfg h (innerBudget cfg) q evs with
+    match inner cfg bridge h (innerBudget cfg) q evs with
     | .done g q' evs' => ⟨.ok (pySlice Gen.Loops04.rmcpDataLo Gen.Loops04.rmcpDataHi g), q', evs', n + 1⟩
     | .exhausted q' evs' => ⟨.retryError, q', evs', n + 1⟩
     | .abort e q' evs' => ⟨e, q', evs', n + 1⟩
-    | .timeout evs' => outer cfg h r [] evs' (n + 1)
+    | .timeout evs' => outer cfg bridge h r [] evs' (n + 1)
 
 /-- A request as passed to `send_and_receive_raw`. -/
 structure Req where
@@ -237,13 +295,16 @@ structure Req where
   routing : List Hop := []
   deriving Repr, DecidableEq
 
-/-- What an `Rmcp` object carries from one request to the next. -/
+/-- What an `Rmcp` object carries from one request to the next: the sequence counter, `_q`, and —
+not an attribute of the object but just as persistent — the receive queue of its UDP socket: the
+datagrams that were delivered while an earlier request was under way and that nobody has read. -/
 structure IfState where
   nextSeq : Nat
   queue : List Frame
+  sock : List RxEvent := []
   deriving Repr, DecidableEq
 
-def IfState.init : IfState := ⟨Gen.Loops04.rmcpSeqInit, []⟩
+def IfState.init : IfState := ⟨Gen.Loops04.rmcpSeqInit, [], []⟩
 
 /-- `_inc_sequence_number`. -/
 def incSeq (s : Nat) : Nat := (s + Gen.Loops04.rmcpSeqInc) % Gen.Loops04.rmcpSeqMod
@@ -257,6 +318,25 @@ def txData (cfg : Cfg) (req : Req) (seq : Nat) : Frame :=
   if req.routing.isEmpty then encodeIpmbMsg h req.payload
   else encodeBridged req.routing h req.payload seq
 
+/-- `bridge_header`: set only when the routing has more than one entry (a one-entry routing sends the
+plain request) -/
+def bridgeOf (req : Req) (seq : Nat) : Option Hdr :=
+  if 1 < req.routing.length then some (bridgeHdr seq) else none
+
+/-- a datagram (not a period of silence) -/
+def RxEvent.isDatagram : RxEvent → Bool
+  | .timeout => false
+  | _ => true
+
+/-- What stays in the socket: the datagrams among the events a request did not read (silence leaves
+nothing behind). -/
+def leftover (evs : List RxEvent) : List RxEvent := evs.filter RxEvent.isDatagram
+
+/-- What the receive calls of a request see, oldest first: as shipped whatever is still in the socket,
+then what arrives; repaired (`_drain_socket` before the request is sent) only what arrives. -/
+def pending (cfg : Cfg) (st : IfState) (evs : List RxEvent) : List RxEvent :=
+  if cfg.drain then evs else st.sock ++ evs
+
 structure Step where
   st : IfState
   out : Outcome Frame
@@ -264,15 +344,19 @@ structure Step where
   rest : List RxEvent
   deriving Repr
 
-/-- One call of `Rmcp._send_and_receive` on an interface in state `st` while the socket
-delivers `evs`. -/
+/-- One call of `Rmcp._send_and_receive` on an interface in state `st` while the network delivers
+`evs`.  Everything happens under `transaction_lock`: the sequence number is advanced, header and frame
+are built, the socket is drained (repaired source), then the loops run.  The events the loops did not
+consume stay in the socket (`leftover`) for whoever reads it next. -/
 def rmcpRequest (cfg : Cfg) (st : IfState) (req : Req) (evs : List RxEvent) : Step :=
   let seq := incSeq st.nextSeq
   let h := mkHdr cfg.slaveAddr req seq
-  let r := outer cfg h (outerBudget cfg) st.queue evs 0
-  { st := ⟨seq, r.queue⟩, out := r.out, tx := List.replicate r.sends (txData cfg req seq), rest := r.rest }
+  let r := outer cfg (bridgeOf req seq) h (outerBudget cfg) st.queue (pending cfg st evs) 0
+  { st := ⟨seq, r.queue, leftover r.rest⟩, out := r.out, tx := List.replicate r.sends (txData cfg req seq),
+    rest := r.rest }
 
-/-- Several requests on one interface object, each with its own slice of socket events. -/
+/-- Several requests on one interface object; `evs` of a request is what the network delivers from
+the moment the request is sent — what the request does not read is still there for the next one. -/
 def runSession (cfg : Cfg) (st : IfState) : List (Req × List RxEvent) → IfState
   | [] => st
   | (req, evs) :: more => runSession cfg (rmcpRequest cfg st req evs).st more
@@ -291,72 +375,108 @@ translator writes the same function, re-read from the working tree, to
 `Gen.Loops04.rmcpSendAndReceive` on every run, and `Props.C04.source_shape_rmcp` states that the
 two are EQUAL.  Each statement is annotated with the place of this file that mirrors it, so a
 statement that moves, disappears, appears or changes breaks that theorem and points here.
-(With `Cfg.requeue = false`; the as-shipped variant `requeue = true` had
-`if not received: self._q.put(rx_data)` in front of `received_retry += 1`.) -/
+
+This is the REPAIRED source (`Cfg.Repaired`: fixes/C04-1, C09-1, C04-2, C04-3).  What the pinned source had
+instead: `if not received: self._q.put(rx_data)` in front of `received_retry += 1` (`requeue`, before C04-1);
+`if array('B', rx_data)[5] == constants.CMDID_SEND_MESSAGE:` + `decode_bridged_message(rx_data)` and no
+`bridge_header` (`cmdOnly`, before C09-1); the statements up to `tx_data = …` in FRONT of the `with`
+block (before C04-2: two threads could put the same `rq_seq` on consecutive requests — C14); no
+`self._drain_socket()` (`drain = false`, before C04-3). -/
 namespace Shape
 open PyIpmi.LoopAst
 
-/-- variables: 0=target, 1=lun, 2=netfn, 3=cmdid, 4=payload (parameters), 5=header, 6=tx_data,
-7=retry, 8=received, 9=received_retry, 10=rx_data -/
+/-- variables: 0=target, 1=lun, 2=netfn, 3=cmdid, 4=payload (parameters), 5=header, 6=bridge_header,
+7=tx_data, 8=retry, 9=received, 10=received_retry, 11=rx_data -/
 def rmcp : Fun :=
   { params := 5, body := py[
-    -- `rmcpRequest`: `seq := incSeq st.nextSeq` comes FIRST and on every path — the new state
-    -- carries `seq` whatever the outcome (a failed request uses its number up)
-    .expr (.call (.attr .self_ .u_inc_sequence_number) args[]),
-    -- `mkHdr cfg.slaveAddr req seq`: the seven header fields; rq_seq is the number just advanced
-    .assign (.var 5) (.call (.glob .IpmbHeaderReq) args[]),
-    .assign (.attr (.var 5) .netfn) (.var 2),
-    .assign (.attr (.var 5) .rs_lun) (.var 1),
-    .assign (.attr (.var 5) .rs_sa) (.attr (.var 0) .ipmb_address),
-    .assign (.attr (.var 5) .rq_seq) (.attr .self_ .next_sequence_number),
-    .assign (.attr (.var 5) .rq_lun) (.num 0),
-    .assign (.attr (.var 5) .rq_sa) (.attr .self_ .slave_address),
-    .assign (.attr (.var 5) .cmdid) (.var 3),
-    -- `txData`: built ONCE, before the loops, with the same number (also in every Send Message envelope)
-    .ite (.attr (.var 0) .routing) py[
-      .assign (.var 6) (.call (.glob .encode_bridged_message) args[.attr (.var 0) .routing, .var 5, .var 4, .attr .self_ .next_sequence_number])] py[
-      .assign (.var 6) (.call (.glob .encode_ipmb_msg) args[.var 5, .var 4])],
-    -- one lock block around everything that touches the socket or `_q` (C14)
+    -- ONE lock block around everything that touches `next_sequence_number`, the socket or `_q`: allocating
+    -- the sequence number, building the frame and the whole exchange are one critical section (C14:
+    -- `Threads` model, `rq_seq_distinct_on_wire`)
     .with_ (.attr .self_ .transaction_lock) py[
+      -- `rmcpRequest`: `seq := incSeq st.nextSeq` comes FIRST and on every path — the new state
+      -- carries `seq` whatever the outcome (a failed request uses its number up)
+      .expr (.call (.attr .self_ .u_inc_sequence_number) args[]),
+      -- `mkHdr cfg.slaveAddr req seq`: the seven header fields; rq_seq is the number just advanced
+      .assign (.var 5) (.call (.glob .IpmbHeaderReq) args[]),
+      .assign (.attr (.var 5) .netfn) (.var 2),
+      .assign (.attr (.var 5) .rs_lun) (.var 1),
+      .assign (.attr (.var 5) .rs_sa) (.attr (.var 0) .ipmb_address),
+      .assign (.attr (.var 5) .rq_seq) (.attr .self_ .next_sequence_number),
+      .assign (.attr (.var 5) .rq_lun) (.num 0),
+      .assign (.attr (.var 5) .rq_sa) (.attr .self_ .slave_address),
+      .assign (.attr (.var 5) .cmdid) (.var 3),
+      -- `bridgeOf req seq`: `none` unless the request goes out inside a Send Message …
+      .assign (.var 6) .none,
+      -- `txData`: built ONCE, before the loops, with the same number (also in every Send Message envelope)
+      .ite (.attr (.var 0) .routing) py[
+        .assign (.var 7) (.call (.glob .encode_bridged_message) args[.attr (.var 0) .routing, .var 5, .var 4, .attr .self_ .next_sequence_number]),
+        -- … `some (bridgeHdr seq)` when the routing has more than one entry: netFn App, LUN 0, the SAME
+        -- sequence number, command Send Message (`Gen.netfnApp`, `Gen.cmdSendMessage`)
+        .ite (.cmp .gt (.call (.glob .len) args[.attr (.var 0) .routing]) (.num 1)) py[
+          .assign (.var 6) (.call (.glob .IpmbHeaderReq) args[]),
+          .assign (.attr (.var 6) .netfn) (.attr (.glob .constants) .NETFN_APP),
+          .assign (.attr (.var 6) .rs_lun) (.num 0),
+          .assign (.attr (.var 6) .rq_seq) (.attr (.var 5) .rq_seq),
+          .assign (.attr (.var 6) .cmdid) (.attr (.glob .constants) .CMDID_SEND_MESSAGE)] py[]] py[
+        .assign (.var 7) (.call (.glob .encode_ipmb_msg) args[.var 5, .var 4])],
+      -- `pending cfg st evs` with `cfg.drain = true`: what is still in the socket is discarded BEFORE the
+      -- request is sent (`Shape.rmcpDrainSocket`); the loops see only what arrives from now on
+      .expr (.call (.attr .self_ .u_drain_socket) args[]),
       -- `outer … (outerBudget cfg) … 0`: counter from 0 while `<= max_retries` (Gen.rmcpOuterExtra = 1)
-      .assign (.var 7) (.num 0),
-      .while_ (.cmp .le (.var 7) (.attr .self_ .max_retries)) py[
+      .assign (.var 8) (.num 0),
+      .while_ (.cmp .le (.var 8) (.attr .self_ .max_retries)) py[
         .try_ py[
           -- `outer`: every round sends the SAME tx_data once (`n + 1`, `List.replicate r.sends (txData …)`)
-          .expr (.call (.attr .self_ .u_send_ipmi_msg) args[.var 6]),
-          -- `inner cfg h (innerBudget cfg)`: fresh budget every round, `<= max_retries` (Gen.rmcpInnerExtra = 1)
-          .assign (.var 8) .ff,
-          .assign (.var 9) (.num 0),
-          .while_ (.and_ (.cmp .is_ (.var 8) .ff) (.cmp .le (.var 9) (.attr .self_ .max_retries))) py[
+          .expr (.call (.attr .self_ .u_send_ipmi_msg) args[.var 7]),
+          -- `inner cfg bridge h (innerBudget cfg)`: fresh budget every round, `<= max_retries` (Gen.rmcpInnerExtra = 1)
+          .assign (.var 9) .ff,
+          .assign (.var 10) (.num 0),
+          .while_ (.and_ (.cmp .is_ (.var 9) .ff) (.cmp .le (.var 10) (.attr .self_ .max_retries))) py[
             -- `nextQ` before `nextSock`: `_q` is read first, the socket only when it is empty;
             -- `socket.timeout` from the receive leaves BOTH inner constructs (`Next.timeout`, `Inner.timeout`)
             .ite (.not_ (.call (.attr (.attr .self_ .u_q) .empty) args[])) py[
-              .assign (.var 10) (.call (.attr (.attr .self_ .u_q) .get) args[])] py[
-              .assign (.var 10) (.call (.attr .self_ .u_receive_ipmi_msg) args[.attr .self_ .ignore_sdu_length])],
-            -- `classify`: byte `Gen.rmcpBridgeIdx` = Send Message → `peelN`; empty result = bare
+              .assign (.var 11) (.call (.attr (.attr .self_ .u_q) .get) args[])] py[
+              .assign (.var 11) (.call (.attr .self_ .u_receive_ipmi_msg) args[.attr .self_ .ignore_sdu_length])],
+            -- `classify` (cmdOnly = false): ONLY with a `bridge_header` and ONLY a frame that passes
+            -- `rxFilter cfg.checkSeq bh` (both checksums, netFn 07h, command 34h, LUN 0, this request's
+            -- sequence number) is unwrapped — `peelN false`, every layer verified; an empty result = bare
             -- acknowledgement = `Cls.ack` → `continue` WITHOUT touching the counter (`nextQ`/`nextSock` recurse)
-            .ite (.cmp .eq (.index (.call (.glob .array) args[.chr 66, .var 10]) (.num 5)) (.attr (.glob .constants) .CMDID_SEND_MESSAGE)) py[
-              .assign (.var 10) (.call (.glob .decode_bridged_message) args[.var 10]),
-              .ite (.not_ (.var 10)) py[
+            .ite (.and_ (.cmp .isNot (.var 6) .none) (.call (.glob .rx_filter) args[.var 6, .var 11, .kw .rq_seq (.not_ (.attr .self_ .ignore_rq_seq))])) py[
+              .assign (.var 11) (.call (.glob .decode_bridged_message) args[.var 11, .kw .verify .tt]),
+              .ite (.not_ (.var 11)) py[
                 .cont] py[]] py[],
-            -- `classify`: `rxFilter cfg.checkSeq h g` decides hit / noise, `received` is ONLY ever the filter's verdict
-            .assign (.var 8) (.call (.glob .rx_filter) args[.var 5, .var 10, .kw .rq_seq (.not_ (.attr .self_ .ignore_rq_seq))]),
+            -- `plain` / `afterPeel`: `rxFilter cfg.checkSeq h g` decides hit / noise, `received` is ONLY ever the filter's verdict
+            .assign (.var 9) (.call (.glob .rx_filter) args[.var 5, .var 11, .kw .rq_seq (.not_ (.attr .self_ .ignore_rq_seq))]),
             -- `inner`: a filtered frame costs one unit of budget (`b + 1 ↦ b`); NOTHING is put back into
             -- `_q` (`cfg.requeue = false`: the unmatched frame is dropped)
-            .aug .add (.var 9) (.num 1)] py[],
+            .aug .add (.var 10) (.num 1)] py[],
           -- `Inner.exhausted` → RetryError leaves the function (not caught: only socket.timeout is)
-          .ite (.not_ (.var 8)) py[
+          .ite (.not_ (.var 9)) py[
             .raise (.glob .RetryError)] py[],
           -- `Inner.done g` → leave the retry loop with rx_data = the frame that passed the filter
           .brk] (.cons (.attr (.glob .socket) .timeout) py[
           -- `Inner.timeout` → `outer … r …`: one retry used, next round re-sends
-          .aug .add (.var 7) (.num 1)] .nil)] py[]],
+          .aug .add (.var 8) (.num 1)] .nil)] py[]],
     -- `outer 0` → RetryError: the give-up test is the COUNTER, not the content of rx_data
-    .ite (.cmp .gt (.var 7) (.attr .self_ .max_retries)) py[
+    .ite (.cmp .gt (.var 8) (.attr .self_ .max_retries)) py[
       .raise (.glob .RetryError)] py[],
     -- `Inner.done g` → `.ok (pySlice Gen.rmcpDataLo Gen.rmcpDataHi g)`; rx_data can only be a frame that
     -- passed rx_filter in the LAST round (`break` is the only way here with retry <= max_retries)
-    .ret (.slice (.var 10) (.num 6) (.neg 1))] }
+    .ret (.slice (.var 11) (.num 6) (.neg 1))] }
+
+/-- `Rmcp._drain_socket`: `pending` with `drain = true` forgets `st.sock` — every datagram that is
+already in the socket is read and thrown away with the socket non-blocking (`settimeout(0)`: a read
+never waits, so nothing that arrives later is touched and no time passes), until a read finds nothing
+(`BlockingIOError`, an `OSError`); the caller's timeout is restored on every path.  variables: 0=timeout -/
+def rmcpDrainSocket : Fun :=
+  { params := 0, body := py[
+    .assign (.var 0) (.call (.attr (.attr .self_ .u_sock) .gettimeout) args[]),
+    .expr (.call (.attr (.attr .self_ .u_sock) .settimeout) args[.num 0]),
+    .tryf py[
+      .while_ .tt py[
+        .expr (.call (.attr (.attr .self_ .u_sock) .recvfrom) args[.num 4096])] py[]] (.cons (.glob .OSError) py[
+      .pass_] .nil) py[
+      .expr (.call (.attr (.attr .self_ .u_sock) .settimeout) args[.var 0])]] }
 
 end Shape
 
